@@ -53,11 +53,217 @@ def lbool(b):
     return "true" if b else "false"
 
 
+# ---------------------------------------------------------------------------------------------- normalisation
+# Behaviour-preserving surface variants of a statement are mapped to ONE canonical shape before translation, so that
+# the generated Lean text (and every "generated = model" proof) is the same for all of them.  Each rule preserves the
+# meaning for ALL inputs (reason given at the rule); anything not covered is left alone and, if the translators do not
+# know it, REFUSED as before.
+import copy
+
+_NEG = {ast.In: ast.NotIn, ast.NotIn: ast.In, ast.Eq: ast.NotEq, ast.NotEq: ast.Eq, ast.Is: ast.IsNot, ast.IsNot: ast.Is}
+
+
+class _ExprNorm(ast.NodeTransformer):
+    def visit_UnaryOp(self, n):
+        self.generic_visit(n)
+        # `not a in b` = `a not in b`, `not a == b` = `a != b`, `not a is b` = `a is not b`: Python evaluates the
+        # comparison once and negates its truth value; `in`/`is` always give a bool, and for `==`/`!=` of the values
+        # met here (str, int, None) `!=` is the negation of `==`
+        if isinstance(n.op, ast.Not) and isinstance(n.operand, ast.Compare) and len(n.operand.ops) == 1 \
+                and type(n.operand.ops[0]) in (ast.In, ast.NotIn, ast.Is, ast.IsNot):
+            c = n.operand
+            return ast.copy_location(ast.Compare(c.left, [_NEG[type(c.ops[0])]()], c.comparators), n)
+        return n
+
+    def visit_IfExp(self, n):
+        self.generic_visit(n)
+        # `False if x else True` = `not x` (both are exactly `bool(x)` negated)
+        if isinstance(n.body, ast.Constant) and n.body.value is False and isinstance(n.orelse, ast.Constant) and n.orelse.value is True:
+            return ast.copy_location(ast.UnaryOp(ast.Not(), n.test), n)
+        return n
+
+    def visit_Call(self, n):
+        self.generic_visit(n)
+        # `list(d.keys())` = `list(d)` for a dict `d` (here: the `**kwargs` dict): iterating a dict iterates its keys
+        if isinstance(n.func, ast.Name) and n.func.id == "list" and len(n.args) == 1 and not n.keywords:
+            a = n.args[0]
+            if isinstance(a, ast.Call) and isinstance(a.func, ast.Attribute) and a.func.attr == "keys" and not a.args \
+                    and isinstance(a.func.value, ast.Name) and a.func.value.id == "kwargs":
+                n.args = [a.func.value]
+        return n
+
+    def visit_Return(self, n):
+        self.generic_visit(n)
+        # `return None` = `return`
+        if isinstance(n.value, ast.Constant) and n.value.value is None:
+            n.value = None
+        return n
+
+    def visit_If(self, n):
+        self.generic_visit(n)
+        # `if not c: A else: B` = `if c: B else: A` (both branches present; `not` only negates the truth value)
+        if isinstance(n.test, ast.UnaryOp) and isinstance(n.test.op, ast.Not) and n.orelse \
+                and not (len(n.orelse) == 1 and isinstance(n.orelse[0], ast.If)):
+            n.test, n.body, n.orelse = n.test.operand, n.orelse, n.body
+        return n
+
+    def visit_For(self, n):
+        self.generic_visit(n)
+        # `for k in d.keys()` = `for k in d` (same reason)
+        a = n.iter
+        if isinstance(a, ast.Call) and isinstance(a.func, ast.Attribute) and a.func.attr == "keys" and not a.args \
+                and isinstance(a.func.value, ast.Name) and a.func.value.id == "kwargs":
+            n.iter = a.func.value
+        return n
+
+
+def _names(node, ctx=None):
+    return [x for x in ast.walk(node) if isinstance(x, ast.Name) and (ctx is None or isinstance(x.ctx, ctx))]
+
+
+def _count(stmts, name, ctx=None):
+    return sum(1 for st in stmts for x in _names(st, ctx) if x.id == name)
+
+
+def _ends(block):
+    return bool(block) and isinstance(block[-1], (ast.Return, ast.Raise, ast.Continue, ast.Break))
+
+
+def _subst(node, name, expr):
+    class S(ast.NodeTransformer):
+        def visit_Name(self, x):
+            return copy.deepcopy(expr) if x.id == name and isinstance(x.ctx, ast.Load) else x
+    return S().visit(copy.deepcopy(node))
+
+
+def _simple_args_before(call, name):
+    """`name` is a direct positional argument of `call` and everything evaluated before it is a plain name/constant
+    (so moving the evaluation of the inlined expression to that place changes no order of effects)"""
+    if not isinstance(call, ast.Call) or not isinstance(call.func, (ast.Name, ast.Attribute)):
+        return False
+    if isinstance(call.func, ast.Attribute) and not isinstance(call.func.value, ast.Name):
+        return False
+    for a in call.args:
+        if isinstance(a, ast.Name) and a.id == name:
+            return True
+        if not isinstance(a, (ast.Name, ast.Constant)):
+            return False
+    return False
+
+
+def _norm_block(block, whole):
+    """one pass over a statement list; `whole` = all statements of the function (for use counts)"""
+    out = []
+    i = 0
+    changed = False
+    while i < len(block):
+        st = block[i]
+        nxt = block[i + 1] if i + 1 < len(block) else None
+        # nested blocks first
+        for f in ("body", "orelse", "finalbody"):
+            if isinstance(getattr(st, f, None), list) and getattr(st, f) and isinstance(getattr(st, f)[0], ast.stmt):
+                nb, ch = _norm_block(getattr(st, f), whole)
+                setattr(st, f, nb)
+                changed = changed or ch
+        one = isinstance(st, ast.Assign) and len(st.targets) == 1 and isinstance(st.targets[0], ast.Name)
+        # (1) `x = A if c else B`  =  `if c: x = A` / `else: x = B`   (definition of the conditional expression)
+        if one and isinstance(st.value, ast.IfExp):
+            x = st.targets[0]
+            out.append(ast.copy_location(ast.If(st.value.test, [ast.copy_location(ast.Assign([copy.deepcopy(x)], st.value.body), st)],
+                                                [ast.copy_location(ast.Assign([copy.deepcopy(x)], st.value.orelse), st)]), st))
+            i += 1
+            changed = True
+            continue
+        # (2) `if c: x = A else: x = B` ; `y = f(n…, x)` with x used nowhere else  =  `if c: y = f(n…, A) else: y = f(n…, B)`
+        #     (x is bound and read exactly once on each path; the arguments before it are plain names)
+        if isinstance(st, ast.If) and len(st.body) == 1 and len(st.orelse) == 1 and nxt is not None \
+                and all(isinstance(b, ast.Assign) and len(b.targets) == 1 and isinstance(b.targets[0], ast.Name) for b in (st.body[0], st.orelse[0])) \
+                and st.body[0].targets[0].id == st.orelse[0].targets[0].id:
+            x = st.body[0].targets[0].id
+            if isinstance(nxt, ast.Assign) and _simple_args_before(nxt.value, x) and _count([nxt], x, ast.Load) == 1 \
+                    and _count(whole, x, ast.Load) == 1 and _count(whole, x, ast.Store) == 2 and x not in [t.id for t in _names(st.test)]:
+                out.append(ast.copy_location(ast.If(st.test, [_subst(nxt, x, st.body[0].value)], [_subst(nxt, x, st.orelse[0].value)]), st))
+                i += 2
+                changed = True
+                continue
+        # (3) a local bound once and read once, in the very next statement, as what is returned / raised / a direct
+        #     argument after plain names: `x = E; return x` = `return E`, `e = Exc(…); raise e` = `raise Exc(…)`
+        if one and nxt is not None and not isinstance(st.value, ast.IfExp):
+            x = st.targets[0].id
+            if _count(whole, x, ast.Load) == 1 and _count(whole, x, ast.Store) == 1 and x not in ("self", "cls"):
+                if isinstance(nxt, ast.Return) and isinstance(nxt.value, ast.Name) and nxt.value.id == x:
+                    out.append(ast.copy_location(ast.Return(st.value), nxt))
+                    i += 2
+                    changed = True
+                    continue
+                if isinstance(nxt, ast.Raise) and isinstance(nxt.exc, ast.Name) and nxt.exc.id == x and nxt.cause is None:
+                    out.append(ast.copy_location(ast.Raise(st.value, None), nxt))
+                    i += 2
+                    changed = True
+                    continue
+        # (4) `x = []` ; `for v in it: x.append(E)` (or `… if c: x.append(E)`)  =  `x = [E for v in it (if c)]`
+        #     (the loop does nothing but append, `x` is not read by E / c / it)
+        if one and isinstance(st.value, ast.List) and not st.value.elts and isinstance(nxt, ast.For) and not nxt.orelse \
+                and isinstance(nxt.target, ast.Name) and len(nxt.body) == 1:
+            x = st.targets[0].id
+            b = nxt.body[0]
+            cond = None
+            if isinstance(b, ast.If) and not b.orelse and len(b.body) == 1:
+                cond, b = b.test, b.body[0]
+            if isinstance(b, ast.Expr) and isinstance(b.value, ast.Call) and isinstance(b.value.func, ast.Attribute) \
+                    and b.value.func.attr == "append" and isinstance(b.value.func.value, ast.Name) and b.value.func.value.id == x \
+                    and len(b.value.args) == 1 and not b.value.keywords \
+                    and x not in [n.id for n in _names(b.value.args[0])] + [n.id for n in _names(nxt.iter)] + ([n.id for n in _names(cond)] if cond else []):
+                comp = ast.ListComp(b.value.args[0], [ast.comprehension(nxt.target, nxt.iter, [cond] if cond else [], 0)])
+                out.append(ast.copy_location(ast.Assign([st.targets[0]], comp), st))
+                i += 2
+                changed = True
+                continue
+        # (5) `if c: …return/raise/continue` ; `else: S`  =  the same without `else` (the else branch is exactly what runs
+        #     when the if branch was not taken, because the if branch never falls through)
+        if isinstance(st, ast.If) and st.orelse and _ends(st.body):
+            rest = st.orelse
+            st.orelse = []
+            out.append(st)
+            out.extend(rest)
+            i += 1
+            changed = True
+            continue
+        out.append(st)
+        i += 1
+    return out, changed
+
+
+def normalise(stmts):
+    stmts = [ast.fix_missing_locations(_ExprNorm().visit(copy.deepcopy(st))) for st in stmts]
+    for _ in range(20):
+        stmts, ch = _norm_block(stmts, stmts)
+        if not ch:
+            break
+    for st in stmts:
+        ast.fix_missing_locations(st)
+    return stmts
+
+
+def rename_locals(stmts, mapping):
+    """alpha-renaming of LOCAL variables (the mapping is inferred by the caller from the role a local plays): the
+    meaning of a function does not depend on the names of its locals"""
+    if not mapping or all(k == v for k, v in mapping.items()):
+        return stmts
+
+    class R(ast.NodeTransformer):
+        def visit_Name(self, x):
+            if x.id in mapping:
+                x.id = mapping[x.id]
+            return x
+    return [R().visit(st) for st in stmts]
+
+
 def body_wo_doc(fn):
     b = list(fn.body)
     if b and isinstance(b[0], ast.Expr) and isinstance(b[0].value, ast.Constant) and isinstance(b[0].value.value, str):
         b = b[1:]
-    return b
+    return normalise(b)
 
 
 def is_noise(st):
@@ -135,7 +341,28 @@ def tr_component_factory(fn, nid, out, info):
     lines = []
     have = {"cls", "component_type", "validate", "kwargs"}     # Python names in scope
     returned = False
-    for st in body_wo_doc(fn):
+    body = body_wo_doc(fn)
+    # local names by ROLE (alpha-renaming to the names the code has today): the module looked up in sys.modules, the
+    # class fetched from it with getattr, the instance made by calling that class with **kwargs
+    roles = {}
+    for st in body:
+        if isinstance(st, ast.Assign) and len(st.targets) == 1 and isinstance(st.targets[0], ast.Name):
+            if src(st.value) == "sys.modules[cls.__module__]":
+                roles.setdefault(st.targets[0].id, "module_object")
+            v = st.value
+            if isinstance(v, ast.Call) and isinstance(v.func, ast.Name) and roles.get(v.func.id) == "comp_type_class" \
+                    and not v.args and len(v.keywords) == 1 and v.keywords[0].arg is None:
+                roles.setdefault(st.targets[0].id, "comp")
+        if isinstance(st, ast.If) and len(st.body) == 1 and len(st.orelse) == 1:
+            a, b = st.body[0], st.orelse[0]
+            if all(isinstance(x, ast.Assign) and len(x.targets) == 1 and isinstance(x.targets[0], ast.Name)
+                   and isinstance(x.value, ast.Call) and src(x.value.func) == "getattr" and len(x.value.args) == 2
+                   and isinstance(x.value.args[0], ast.Name) and roles.get(x.value.args[0].id) == "module_object" for x in (a, b)) \
+                    and a.targets[0].id == b.targets[0].id:
+                roles.setdefault(a.targets[0].id, "comp_type_class")
+    if len(set(roles.values())) == len(roles) and not (set(roles.values()) - set(roles)) & {n.id for st in body for n in _names(st)}:
+        body = rename_locals(body, roles)
+    for st in body:
         s = src(st)
         if returned:
             raise Gap("component_factory: statement after return: %s" % s[:80])
@@ -184,7 +411,7 @@ def tr_component_factory(fn, nid, out, info):
         raise Gap("component_factory: statement not understood (line %d): %s" % (st.lineno, s[:160]))
     if not returned:
         raise Gap("component_factory: no `return comp`")
-    out.append("/-- `GeneratedsSuperSuper.component_factory` (generatedssupersuper.py:%d), statement by statement -/" % fn.lineno)
+    out.append("/-- `GeneratedsSuperSuper.component_factory` (generatedssupersuper.py), statement by statement -/")
     out.append("def componentFactory (T : Table) (C : CtorTable) (env : Env) (enabled validate : Bool) (component_type : TypeArg)\n"
                "    (kwargs : Kwargs) (oid : Nat) : Except Factory.Err Obj :=")
     for l in lines:
@@ -212,7 +439,7 @@ def tr_check_arg_list(fn, out):
             raise Gap("_check_arg_list: statement after the checking loop: %s" % s[:80])
         m = re.fullmatch(r"(\w+) = self\._get_members\(\)", s)
         if m:
-            lets.append("let %s := Py.getMembers T self" % m.group(1))
+            lets.append("let members := Py.getMembers T self")
             kinds[m.group(1)] = "members"
             i += 1
             continue
@@ -223,29 +450,31 @@ def tr_check_arg_list(fn, out):
             if (isinstance(f.target, ast.Name) and isinstance(f.iter, ast.Name) and kinds.get(f.iter.id) == "members"
                     and not f.orelse and len(f.body) == 1
                     and src(f.body[0]) == "%s.append(%s.get_name())" % (acc, f.target.id)):
-                lets.append("let %s := %s.map (fun %s => %s.name)" % (acc, f.iter.id, f.target.id, f.target.id))
+                lets.append("let member_names := members.map (fun m => m.name)")
                 kinds[acc] = "names"
                 i += 2
                 continue
             raise Gap("_check_arg_list: accumulation loop not understood: %s" % src(f)[:160])
         m = re.fullmatch(r"(\w+) = \[(\w+)\.get_name\(\) for (\w+) in (\w+)\]", s)
         if m and m.group(2) == m.group(3) and kinds.get(m.group(4)) == "members":
-            lets.append("let %s := %s.map (fun %s => %s.name)" % (m.group(1), m.group(4), m.group(2), m.group(2)))
+            lets.append("let member_names := members.map (fun m => m.name)")
             kinds[m.group(1)] = "names"
             i += 1
             continue
         m = re.fullmatch(r"(\w+) = list\(kwargs\.keys\(\)\)", s) or re.fullmatch(r"(\w+) = list\(kwargs\)", s)
         if m:
-            lets.append("let %s := keys kwargs" % m.group(1))
+            lets.append("let args := keys kwargs")
             kinds[m.group(1)] = "keys"
             i += 1
             continue
         if isinstance(st, ast.For) and isinstance(st.target, ast.Name) and not st.orelse:
             it = src(st.iter)
             if isinstance(st.iter, ast.Name) and kinds.get(st.iter.id) == "keys":
-                keys_expr = st.iter.id
+                keys_expr = "args"
             elif it in ("kwargs", "kwargs.keys()"):
-                keys_expr = "(keys kwargs)"
+                # iterating the dict itself = iterating `list(kwargs.keys())`: same canonical binding
+                lets.append("let args := keys kwargs")
+                keys_expr = "args"
             else:
                 raise Gap("_check_arg_list: loop over %s not understood" % it[:60])
             v = st.target.id
@@ -258,9 +487,9 @@ def tr_check_arg_list(fn, out):
                 raise Gap("_check_arg_list: membership test not understood: %s" % src(t)[:120])
             names_var = t.comparators[0].id
             if isinstance(t.ops[0], ast.NotIn):
-                test = "!(%s.contains %s)" % (names_var, v)
+                test = "!(member_names.contains arg)"
             elif isinstance(t.ops[0], ast.In):
-                test = "%s.contains %s" % (names_var, v)
+                test = "member_names.contains arg"
             else:
                 raise Gap("_check_arg_list: membership test not understood: %s" % src(t)[:120])
             raised = False
@@ -279,14 +508,14 @@ def tr_check_arg_list(fn, out):
                 raise Gap("_check_arg_list: statement in the refusal branch not understood: %s" % bs[:120])
             if not raised:
                 raise Gap("_check_arg_list: the refusal branch does not raise ValueError")
-            final = ("match %s.find? (fun %s => %s) with\n  | some %s => .error (.badArg %s)      -- raise ValueError(err)\n"
-                     "  | none => pure ()" % (keys_expr, v, test, v, v))
+            final = ("match %s.find? (fun arg => %s) with\n  | some arg => .error (.badArg arg)      -- raise ValueError(err)\n"
+                     "  | none => pure ()" % (keys_expr, test))
             i += 1
             continue
         raise Gap("_check_arg_list: statement not understood (line %d): %s" % (st.lineno, s[:160]))
     if final is None:
         raise Gap("_check_arg_list: no checking loop found")
-    out.append("/-- `GeneratedsSuperSuper._check_arg_list` (generatedssupersuper.py:%d), statement by statement -/" % fn.lineno)
+    out.append("/-- `GeneratedsSuperSuper._check_arg_list` (generatedssupersuper.py), statement by statement -/")
     out.append("def checkArgList (T : Table) (self : Obj) (kwargs : Kwargs) : Except Factory.Err Unit :=")
     for l in lets:
         out.append("  " + l)
@@ -364,8 +593,8 @@ def tr_add(fn, out, info):
             if isinstance(n, ast.Call) and isinstance(n.func, ast.Attribute) and n.func.attr in ("validate", "validate_"):
                 raise Gap("add: the placement block validates (line %d)" % n.lineno)
     info["addPlacementLines"] = [block[0].lineno, block[-1].end_lineno] if block else None
-    out.append("/-- `GeneratedsSuperSuper.add` with a type argument (generatedssupersuper.py:%d): factory call, placement block\n"
-               "    (lines %s, property C10: `Py.place`), final gate -/" % (fn.lineno, info["addPlacementLines"]))
+    out.append("/-- `GeneratedsSuperSuper.add` with a type argument (generatedssupersuper.py): factory call, placement block\n"
+               "    (property C10: `Py.place`), final gate -/")
     out.append("def addByType (sh : PlaceShape) (T : Table) (C : CtorTable) (env : Env) (strOk : Obj → Bool) (enabled validate : Bool) (self : Obj)\n"
                "    (obj : TypeArg) (kwargs : Kwargs) (hint : Option Nat) (force : Bool) (oid : Nat) : AddOutcome :=")
     out.append("  -- obj = self.component_factory(obj, validate=…, **kwargs)")
@@ -414,7 +643,7 @@ def tr_utils(fn, out, info):
         flag = lbool(info["factoryDefaultValidate"])
     else:
         raise Gap("utils.component_factory: arguments not understood: %s" % src(call)[:160])
-    out.append("/-- `neuroml.utils.component_factory` (utils.py:%d) -/" % fn.lineno)
+    out.append("/-- `neuroml.utils.component_factory` (utils.py) -/")
     out.append("def utilsComponentFactory (T : Table) (C : CtorTable) (env : Env) (enabled validate : Bool) (component_type : TypeArg)\n"
                "    (kwargs : Kwargs) (oid : Nat) : Except Factory.Err Obj :=")
     out.append("  componentFactory T C env enabled %s component_type kwargs oid" % flag)
@@ -431,12 +660,12 @@ def tr_switch_fn(fn, lean_name, out):
     st = body[0]
     if isinstance(st, ast.Assign) and len(st.targets) == 1 and src(st.targets[0]) == "build_time_validation.ENABLED" \
             and isinstance(st.value, ast.Constant) and isinstance(st.value.value, bool):
-        out.append("/-- `neuroml.%s()` (__init__.py:%d) -/" % (fn.name, fn.lineno))
+        out.append("/-- `neuroml.%s()` (__init__.py) -/" % fn.name)
         out.append("def %s (_switch : Bool) : Bool := %s" % (lean_name, lbool(st.value.value)))
         out.append("")
         return
     if isinstance(st, ast.Return) and src(st.value) == "build_time_validation.ENABLED":
-        out.append("/-- `neuroml.%s()` (__init__.py:%d) -/" % (fn.name, fn.lineno))
+        out.append("/-- `neuroml.%s()` (__init__.py) -/" % fn.name)
         out.append("def %s (switch : Bool) : Bool := switch" % lean_name)
         out.append("")
         return
